@@ -54,6 +54,59 @@ PROPS = {
             "hist": {"bin": "verifh", "run": "TestC20", "checks": {"quick": 400, "thorough": 40000}, "shards": {"quick": 4, "thorough": 16}},
         },
     },
+    "C02": {
+        "level": "exploration",
+        "level_text": "Generated witness configurations (1-5 logs, shared keys under different origins) and submissions (valid, bit/line/signature-block mutations, wrong key, same key under another name, wrong origin, cross-log replays, unknown IDs); the oracle is the implication 'accepted => the text is one the harness signed with exactly that log's key and it starts with that log's origin', plus the construction-known refusals.",
+        "level_note": "The harness records every text it signs per (key material, key name); forging is outside what a generator can produce.",
+        "technique": "property-based testing: mutation-based generated inputs x generated configurations, authenticity implication oracle (rapid)",
+        "assumptions": HIST_ASSUME,
+        "parts": {
+            "hist": {"bin": "verifh", "run": "TestC02", "checks": {"quick": 600, "thorough": 64000}, "shards": {"quick": 4, "thorough": 16}},
+        },
+    },
+    "C04": {
+        "level": "exploration",
+        "level_text": "Generated accepted updates of all three kinds over decorated notes, 5 witness key sets and both storages; the harness's own signature-line scanner and Ed25519/cosignature-v1 verifier check text equality, the log line, exactly one valid line per witness key, the timestamp window of the call, and read-after-write equality; refreshes of a state planted with a day-old cosignature expose short-circuits.",
+        "level_note": "Reads the wall clock (second granularity, inclusive window) - inherent to the freshness clause.",
+        "technique": "property-based testing: generated histories and note shapes, independent signature-census oracle (rapid)",
+        "assumptions": HIST_ASSUME,
+        "parts": {
+            "hist": {"bin": "verifh", "run": "TestC04", "checks": {"quick": 500, "thorough": 48000}, "shards": {"quick": 4, "thorough": 16}},
+        },
+    },
+    "C08": {
+        "level": "exploration",
+        "level_text": "Generated prior histories of an honest log (refused forgeries, decorated notes up to the 100-line limit, stale witness lines, size-0 first checkpoint, 5 witness key sets) each followed by honest probes that must be accepted; all honest steps a->b inside 0..64 enumerated; sampled steps up to 2^40 (2^60) on a synthetic tree.",
+        "level_note": "Honest log = every log-signed checkpoint lies on one branch; listed known findings (F2: stored size 0) are excluded by construction, counted, and re-probed.",
+        "technique": "property-based testing: generated histories followed by a must-accept probe; exhaustive small size pairs (rapid + enumeration)",
+        "assumptions": HIST_ASSUME,
+        "parts": {
+            "hist": {"bin": "verifh", "run": "TestC08Hist", "checks": {"quick": 500, "thorough": 64000}, "shards": {"quick": 4, "thorough": 16}},
+            "pairs": {"bin": "verifh", "run": "TestC08Pairs", "kind": "plain", "shards": {"quick": 2, "thorough": 8}},
+            "big": {"bin": "verifh", "run": "TestC08Big", "checks": {"quick": 300, "thorough": 40000}, "shards": {"quick": 1, "thorough": 8}},
+            "known": {"bin": "verifh", "run": "TestC08Known", "kind": "plain"},
+        },
+    },
+    "C16": {
+        "level": "exploration",
+        "level_text": "Generated histories over 2-4 logs on both storages; after every request the registered mux handlers and the bundled HTTP client (in-memory transport) are queried for every known ID, unknown and odd IDs and the log list, and compared byte for byte with the witness's state and the set of logs with an accepted update.",
+        "level_note": "HTTP layer exercised through gorilla/mux + net/http/httptest, not over sockets (C14 covers the socket path).",
+        "technique": "property-based testing: generated histories with a read-after-every-step oracle (rapid)",
+        "assumptions": HIST_ASSUME,
+        "parts": {
+            "hist": {"bin": "verifh", "run": "TestC16", "checks": {"quick": 400, "thorough": 40000}, "shards": {"quick": 4, "thorough": 16}},
+        },
+    },
+    "C12": {
+        "level": "exploration",
+        "level_text": "Metamorphic isolation check: generated per-log histories over 2-5 logs (shared keys) are run interleaved and each alone on deterministic witnesses; every per-step verdict, returned bytes and final checkpoint must be identical, and no checkpoint of another origin is ever returned or stored for an ID. The identity half pushes generated configurations through the real YAML schema, AsLogMap, config.NewLog, the bastion handler, the distributor URL and the HTTP API and demands one ID everywhere and refusal of duplicates.",
+        "level_note": "Isolation half uses the legacy (timestamp-free) signer so that bytes are comparable; identity half lives in the omniwitness package (in-package overlay test).",
+        "technique": "property-based metamorphic testing (interleaved vs isolated histories) + generated configurations (rapid)",
+        "assumptions": HIST_ASSUME,
+        "parts": {
+            "iso": {"bin": "verifh", "run": "TestC12Iso", "checks": {"quick": 300, "thorough": 32000}, "shards": {"quick": 4, "thorough": 16}},
+        },
+    },
 }
 
 # properties not (yet) claimed: id -> reason
